@@ -22,6 +22,8 @@ def cases(tier, seed):
         out.append(dict(src=g.program(nstmts=rnd.randint(4, 10))[0], family="random-full"))
     for s in gen.repeated_call_cases():
         out.append(dict(src=s, family="repeated-calls"))
+    for s in gen.scope_cases()[:: (2 if tier == "quick" else 1)]:
+        out.append(dict(src=s, family="scope-shapes"))
     for s in gen.subroutine_arg_cases(3)[:: (2 if tier == "quick" else 1)]:
         out.append(dict(src=s, family="subroutine-argument-shapes"))
     for s in gen.modifier_cases(rnd)[:: (8 if tier == "quick" else 1)]:
